@@ -1,6 +1,6 @@
 """C08 through the resource thread loop (scheduler.rs): design-level TLC run of ResourceFault (and the
 deviation that publishes a watchdog fault without apply_fault must violate SafeBeforeReport), real
-resource threads (plain and shared-globals runner) x fault kind x fault policy x watchdog action x
+resource threads (plain and shared-globals runner) x fault kind (run-time error, watchdog, driver, simulation disturbance) x fault policy x watchdog action x
 safe-state maps x 1..3 drivers, and validation of the totally ordered driver/observation log against
 ResourceFaultTrace."""
 from common import ToolError, read_ndjson, run_tlc, seed, split_runs, tpv, validate_trace
@@ -16,7 +16,7 @@ def resfault_stage(rep, tier, work):
     neg = run_tlc("MCResourceFault", "MCResourceFault_skip", workers=2, timeout=300, allow_violation=True, tag="mc-c08-resfault-neg")
     if "Invariant SafeBeforeReport is violated" not in neg["stdout"]:
         raise ToolError("the deviation MCResourceFault_skip does not violate SafeBeforeReport:\n" + neg["stdout"][-1500:])
-    n = 108 if tier == "quick" else 1620          # multiples of the 54 enumerated combinations
+    n = 144 if tier == "quick" else 2160          # multiples of the 72 enumerated combinations
     tr = work / "resfault.ndjson"
     tpv(["resfault-run", "--seed", seed(), "--runs", n, "--out", tr], timeout=3000)
     rows = read_ndjson(tr)
